@@ -1163,6 +1163,95 @@ theorem write_no_internal (d : Decoder) (p : Bytes) : (d.write p).2.2 ≠ some .
 theorem close_no_internal (d : Decoder) : d.close.2 ≠ some .internal := by
   unfold Decoder.close; split <;> simp
 
+/-! ### The allowed maximum over whole histories (literal reading of C02; known finding)
+
+"never lets its dynamic table exceed the allowed maximum size … with any SetAllowedMaxDynamicTableSize
+configuration", read over arbitrary histories of public calls, is FALSE for the code as it is:
+`SetAllowedMaxDynamicTableSize(v)` with `v` below the current `maxSize` only limits later size
+updates. It holds for every history in which that call never lowers the bound below the current
+`maxSize` (decidable region `lowersBelowMax`; oracle signature `c02-allowed-lowered-not-enforced`). -/
+
+/-- Public calls of a decoder whose table limits only the peer (`Write`) and
+`SetAllowedMaxDynamicTableSize` touch. -/
+inductive Call where
+  | write (p : Bytes)
+  | close
+  | setAllowed (v : Nat)
+  | setMaxStr (v : Nat)
+  | setEmit (b : Bool)
+
+def stepCall (d : Decoder) : Call → Decoder
+  | .write p => (d.write p).1
+  | .close => d.close.1
+  | .setAllowed v => d.setAllowedMaxDynamicTableSize v
+  | .setMaxStr v => d.setMaxStringLength v
+  | .setEmit b => d.setEmitEnabled b
+
+def runCalls (d : Decoder) (cs : List Call) : Decoder := cs.foldl stepCall d
+
+/-- Some `SetAllowedMaxDynamicTableSize(v)` in the history has `v` below the then-current `maxSize`. -/
+def lowersBelowMax : Decoder → List Call → Bool
+  | _, [] => false
+  | d, c :: cs =>
+    (match c with
+     | .setAllowed v => decide (v < d.dyn.maxSize)
+     | _ => false) || lowersBelowMax (stepCall d c) cs
+
+/-- The clause at full strength: after any history on a fresh decoder the table is within the
+allowed maximum. -/
+def TableWithinAllowedStatement : Prop :=
+  ∀ (n : Nat) (cs : List Call), (runCalls (Decoder.new n) cs).dyn.size ≤ (runCalls (Decoder.new n) cs).dyn.allowedMaxSize
+
+/-- **False for the code as it is**: one indexed literal, then the allowed maximum lowered to 0. -/
+theorem table_within_allowed_full_false : ¬ TableWithinAllowedStatement := by
+  intro h
+  have := h 4096 [.write [0x40, 0x01, 0x61, 0x01, 0x62], .close, .setAllowed 0]
+  revert this
+  decide +kernel
+
+theorem stepCall_inv (d : Decoder) (c : Call) (h : TableInv d.dyn ∧ d.dyn.maxSize ≤ d.dyn.allowedMaxSize)
+    (hc : lowersBelowMax d [c] = false) :
+    TableInv (stepCall d c).dyn ∧ (stepCall d c).dyn.maxSize ≤ (stepCall d c).dyn.allowedMaxSize := by
+  cases c with
+  | write p => exact ⟨(write_table_inv d p h.1).1, write_maxSize_le_allowed d p h.2⟩
+  | close =>
+    refine ⟨close_table_inv d h.1, ?_⟩
+    show d.close.1.dyn.maxSize ≤ d.close.1.dyn.allowedMaxSize
+    unfold Decoder.close
+    split <;> exact h.2
+  | setAllowed v =>
+    simp only [lowersBelowMax, Bool.or_false, decide_eq_false_iff_not, Nat.not_lt] at hc
+    exact ⟨h.1, hc⟩
+  | setMaxStr v => exact h
+  | setEmit b => exact h
+
+/-- **C02 (allowed maximum), outside the excluded region**: if no `SetAllowedMaxDynamicTableSize`
+call lowers the bound below the current `maxSize`, then after any history of `Write`s (any bytes, any
+split), `Close`s and configuration calls `size ≤ maxSize ≤ allowedMaxSize`. -/
+theorem table_within_allowed_partial : ∀ (cs : List Call) (d : Decoder),
+    TableInv d.dyn → d.dyn.maxSize ≤ d.dyn.allowedMaxSize → lowersBelowMax d cs = false →
+    (runCalls d cs).dyn.size ≤ (runCalls d cs).dyn.maxSize ∧
+      (runCalls d cs).dyn.maxSize ≤ (runCalls d cs).dyn.allowedMaxSize := by
+  intro cs
+  induction cs with
+  | nil => intro d h1 h2 _; exact ⟨h1.2, h2⟩
+  | cons c cs ih =>
+    intro d h1 h2 hl
+    simp only [lowersBelowMax, Bool.or_eq_false_iff] at hl
+    have hstep := stepCall_inv d c ⟨h1, h2⟩ (by simp only [lowersBelowMax, Bool.or_false]; exact hl.1)
+    exact ih (stepCall d c) hstep.1 hstep.2 hl.2
+
+theorem table_within_allowed_fresh (n : Nat) (cs : List Call) (h : lowersBelowMax (Decoder.new n) cs = false) :
+    (runCalls (Decoder.new n) cs).dyn.size ≤ (runCalls (Decoder.new n) cs).dyn.allowedMaxSize := by
+  have := table_within_allowed_partial cs (Decoder.new n) (new_table_inv n) (Nat.le_refl _) h
+  exact Nat.le_trans this.1 this.2
+
+/-- Non-vacuity: a history with a size update by the peer, raising of the bound and a harmless
+lowering (down to the current `maxSize`) is outside the excluded region. -/
+example : lowersBelowMax (Decoder.new 4096)
+    [.write [0x3f, 0x45, 0x40, 0x01, 0x61, 0x01, 0x62], .close, .setAllowed 100, .setAllowed 8192, .write [0x3f, 0xe1, 0x1f]] = false := by
+  decide +kernel
+
 /-! ### Non-vacuity -/
 
 example : TableInv (Decoder.new 4096).dyn := new_table_inv 4096
